@@ -271,12 +271,30 @@ func (d *Discharger) discharge(groups [][]*Oblig) {
 			}
 			continue
 		}
-		for i := 0; i < len(g); i += chunk {
-			j := i + chunk
-			if j > len(g) {
-				j = len(g)
+		// quantified obligations get a solver process of their own (a slow one must not starve the others)
+		var light []*Oblig
+		for _, o := range g {
+			heavy := strings.Contains(o.Goal.S, "(forall ") || strings.Contains(o.Goal.S, "(exists ") || strings.Contains(o.Goal.S, "wf_v")
+			if !heavy {
+				for _, a := range o.Assumes {
+					if strings.Contains(a.S, "(forall ") || strings.Contains(a.S, "(exists ") {
+						heavy = true
+						break
+					}
+				}
 			}
-			jobs = append(jobs, job{g[i:j], decls})
+			if heavy && o.Template == nil {
+				jobs = append(jobs, job{[]*Oblig{o}, decls})
+			} else {
+				light = append(light, o)
+			}
+		}
+		for i := 0; i < len(light); i += chunk {
+			j := i + chunk
+			if j > len(light) {
+				j = len(light)
+			}
+			jobs = append(jobs, job{light[i:j], decls})
 		}
 	}
 	ctx := context.Background()
